@@ -5,6 +5,7 @@ CONSTANTS
   MaxFrames = 99
   MaxCancels = 99
   Fixes = {}
+  CfgSet <- Configs
 SPECIFICATION TraceSpec
 CONSTRAINT HighWater
 INVARIANTS TypeOK Routed TerminalLocal NothingAfterTerminal SharedOnlyIfSameKey NoLeak NoStall
